@@ -78,6 +78,18 @@ func checkC07(c *Ctx) {
 			}
 		}
 		c.checkPins(f, "C07.i", ps)
+		// the loop that replaces the placeholders of forward-declared types runs until the collector finds none: the
+		// collector must see every component, or a placeholder survives in the global info table, where the next type
+		// group — whose placeholders are numbered from the same start — resolves it to one of its own types
+		var ps2 []pin
+		for _, p := range c02Pins {
+			switch p.fn {
+			case "collectTVarFTypeWithSet", "transTVFTypeWithSet":
+				ps2 = append(ps2, p)
+			}
+		}
+		r.Rule("C07.j", "no placeholder of a forward-declared type survives its type group in the global info table: the collector and the substitution that drive the resolution loop have their reviewed closed forms (every component, generic or not)", 2)
+		c.checkPins(f, "C07.j", ps2)
 	}
 
 	// (b)
